@@ -1064,6 +1064,10 @@ pub fn eval_history(h: &History, model: &Model, bin: &str, work: &str, uid: &str
     if shared_res.proc.code != fresh_res.proc.code {
         return Some(mk(format!("exit status differs: {:?} after the history vs {:?} in a fresh location", shared_res.proc.code, fresh_res.proc.code), "KT.result_independent", &a, &b));
     }
+    if last.container == "faX" && fresh_res.proc.code != Some(0) {
+        // an input the reader refuses (unknown suffix on the mapped path) is refused alike in both locations: nothing to compare
+        return None;
+    }
     if a != b {
         return Some(mk("result files after the history differ from those of the last run alone in a fresh location".into(), "KT.result_independent", &a, &b));
     }
@@ -1089,7 +1093,10 @@ fn gen_history(r: &mut Rng) -> History {
         let c = match kind {
             0 => {
                 let k = r.range(3, 5);
-                CliCase { sub: Sub::Oligo { k, counts: r.chance(1, 2), header: r.chance(1, 2), preset: r.pick(&["csv", "spc"]).to_string(), threads, stdin: false }, recs: seqs(r, nrec, k as usize, 80, false), container: "fa".into() }
+                // now and then an input whose suffix the format table does not know: accepted by the batched writer (which looks
+                // at the first byte), refused by the mapped one — in a used location exactly as in a fresh one
+                let container = if r.chance(1, 4) { "faX" } else { "fa" };
+                CliCase { sub: Sub::Oligo { k, counts: r.chance(1, 2), header: r.chance(1, 2), preset: r.pick(&["csv", "spc"]).to_string(), threads, stdin: false }, recs: seqs(r, nrec, k as usize, 80, false), container: container.into() }
             }
             1 => {
                 let k = if r.chance(1, 2) { None } else { Some(r.range(3, 4)) };
